@@ -166,5 +166,6 @@ let handle (line : string) : string =
   | "P" -> handle_p f
   | "W" -> handle_w f
   | "H" | "M" | "N" -> handle_h f  (* M, N: the same keyset, the handle built through keyset.Manager *)
+  | "U" -> "u"  (* direct check only: a handle with a key its serializer refuses *)
   | "GENFAIL" -> "genfail-not-expected"
   | _ -> failwith "case kind"
